@@ -64,6 +64,33 @@ def laws : CodeLaws ops where
   e := 0
   code _ l := code l
   HInv _ := True
+  Val _ := True
+  val_imm := fun _ _ => trivial
+  put_val := fun _ _ => trivial
+  maybePut_val := fun _ _ => trivial
+  newCont_val := fun _ _ => trivial
+  makeClosure_val := fun _ => trivial
+  vectorPush_val := fun _ => trivial
+  globGet_val := fun _ _ => trivial
+  envGet_val := fun _ _ => trivial
+  envGet_val2 := fun _ _ => trivial
+  info_code := by
+    intro h l bc info _ hc hi
+    have hi' : (if l = 2 ∨ l = 3 then some (⟨0⟩ : LambdaInfo) else if l = 8 then some ⟨1⟩ else none) = some info := hi
+    have hc' : code l = some bc := hc
+    by_cases h2 : l = 2
+    · subst h2
+      rw [show code 2 = some code2 from rfl] at hc'
+      cases hc'; cases hi'; decide
+    · by_cases h3 : l = 3
+      · subst h3
+        rw [show code 3 = some code3 from rfl] at hc'
+        cases hc'; cases hi'; decide
+      · by_cases h8 : l = 8
+        · subst h8
+          rw [show code 8 = some code2 from rfl] at hc'
+          cases hc'; cases hi'; decide
+        · exact absurd hi' (by simp [h2, h3, h8])
   fetch_code := by
     intro h l bc _ hc o
     show (code l).bind (·[o]?) = _
@@ -111,7 +138,8 @@ def laws : CodeLaws ops where
   newCont_inv := fun _ _ => trivial
   newCont_code := fun _ hc => hc
 
-def gcLaws : GcLaws laws id := ⟨fun _ => ⟨rfl, rfl, rfl, rfl⟩, fun _ h => h, fun _ _ _ _ hc _ => hc⟩
+def gcLaws : GcLaws laws id :=
+  ⟨fun _ => ⟨rfl, rfl, rfl, rfl⟩, fun _ => rfl, fun _ _ h => h, fun _ h => h, fun _ _ _ _ hc _ => hc⟩
 
 /-- an idle machine with 16 stack cells -/
 def idle : St Unit :=
@@ -138,16 +166,16 @@ theorem entry7 : ∃ t, tyOf (laws.code ()) 7 = some t ∧ t.entry = true := by
 
 theorem wf_start7 : WFS laws (prepare idle 7) [] := by
   obtain ⟨t, ht, he⟩ := entry7
-  exact WFS.initial (cl := laws) trivial ht he rfl (by decide)
+  exact WFS.initial (cl := laws) trivial ht he rfl (by decide) trivial
 
 /-- the initial state of the evaluation of entry code 1 is WF -/
 theorem wf_start1 : WFS laws (prepare idle 1) [] := by
   obtain ⟨t, ht, he⟩ := entry1
-  exact WFS.initial (cl := laws) trivial ht he rfl (by decide)
+  exact WFS.initial (cl := laws) trivial ht he rfl (by decide) trivial
 
 theorem wf_start4 : WFS laws (prepare idle 4) [] := by
   obtain ⟨t, ht, he⟩ := entry4
-  exact WFS.initial (cl := laws) trivial ht he rfl (by decide)
+  exact WFS.initial (cl := laws) trivial ht he rfl (by decide) trivial
 
 /-- run `k` instructions (none of them halting) -/
 def runK (k : Nat) (s : St Unit) : Option (St Unit) :=
